@@ -289,6 +289,12 @@ def explore(ctx, res, replay=None):
         o = gen_prog.Opts(canonical=rng.random() < 0.6, share_lines=0.5 if k % 5 == 2 else 0.0, max_defs=3 if k % 5 == 2 else 3, big_consts=0.35 if big else 0.02,
                           p_call=0.9 if deep else 0.6, allow_diverge=0.05)
         srcs.append(gen_prog.ProgGen(rng, o).program()[:2])
+    # the machine ends inside a called program (STOP with pending calls): the end must be absorbing (C17), memory must
+    # still be exactly the live frames (C19), the debugged run must end like the uninterrupted one (C05)
+    for s_ in ('PROGRAM inner IN a OUT r DO\n  r := a + 1;\n  STOP\nEND\nPROGRAM outer IN b OUT s DO\n  t := b + 2;\n  s := RUN inner WITH t END\nEND\nx0 := 5;\nx1 := RUN outer WITH x0 END;\nx2 := 7\n',
+               'PROGRAM limit IN a OUT r DO\n  r := a;\n  IF a = 3 THEN GOTO over;\n  GOTO fine;\n  over: STOP;\n  fine: r := r + 1\nEND\nPROGRAM outer IN n OUT s DO\n  LOOP n DO\n    s := RUN limit WITH s END\n  END\nEND\nx0 := RUN outer WITH 6 END;\nx1 := 1\n',
+               'PROGRAM halt DO\n  STOP\nEND\nPROGRAM f IN a, b OUT r DO\n  r := a\nEND\nx := 4;\ny := RUN f WITH x, RUN halt WITH END END;\nz := 1\n'):
+        srcs.append(({'main.theo': s_}, 'main.theo'))
     if pid == 'C19':
         # calls inside long-running loops
         for n in (50, 300, 1000):
@@ -363,6 +369,9 @@ def explore(ctx, res, replay=None):
                 continue
             for _ in range(nlong):
                 add(pi, random_history(progs[pi], rng, rng.randint(3, 40 if quick else 200)))
+            # calls after the end has been reached, with and without stepping
+            add(pi, ['X 20000', 'X 20000', 'I', 'I', 'X 20000', 'S 1', 'I', 'X 20000', 'S 0', 'X 20000'])
+            add(pi, ['S 1'] + ['X 20000'] * 3 + ['XS 20000', 'I', 'I', 'XS 20000'])
             # the real VM::execute() (no cap: only on programs whose uninterrupted run is known to halt)
             if progs[pi].get('halts'):
                 locs = sorted(progs[pi]['pbs'].keys())
@@ -374,7 +383,9 @@ def explore(ctx, res, replay=None):
             # the invariant sweep: every instruction boundary (C19/C20)
             add(pi, ['XS %d' % (20000 if quick else 200000)])
             add(pi, ['S 1'] + ['XS 3000'] * 6)
-    iout = ctx.run_impl(cases, timeout_case=30)
+    # C20 is about undefined arithmetic: its histories run on the build with UndefinedBehaviorSanitizer (a signed overflow
+    # that happens to wrap is still a violation)
+    iout = ctx.run_impl(cases, variant='asan' if pid == 'C20' else 'plain', timeout_case=60 if pid == 'C20' else 30)
     mout = ctx.run_model(cases)
     res.rule = ('G-hist: all histories up to length %d over a %d-call alphabet (enable/disable two locations, an unavailable one, '
                 'clear, stepping on/off, execute, single step, reset) on three small programs; random histories of length <= %d on '
@@ -459,6 +470,15 @@ def explore(ctx, res, replay=None):
                 if e['fresh'] or k == 0 and hist[0][0] in 'BCS':
                     if e['fresh'] and (st['cur'] != 'none'):
                         bad.append(('cur', 'current location after reset is %s' % st['cur']))
+                # while the machine stands where it stopped, the reported location is that site's: a request that does not
+                # resume execution (enable, disable, clear, stepping on/off) must not change it
+                if prev is not None and hist[k].split()[0] in ('B', 'C', 'S') and prev[0]['site'] is not None or \
+                        (prev is not None and hist[k].split()[0] in ('B', 'C', 'S') and prev[0].get('standing') is not None):
+                    standing = prev[0]['site'] if prev[0]['site'] is not None else prev[0].get('standing')
+                    e['standing'] = standing
+                    want = '%s:%d' % p['li'][standing]
+                    if st['cur'] != want:
+                        bad.append(('cur', 'standing on site %d after %s, but the current location is now %s, expected %s' % (standing, hist[k], st['cur'], want)))
                 if e['fresh']:
                     if not (st['ip'] == '0' and st['data'] == '' and st['stack'] == '' and st['en'] == '' and st['step'] == '0'
                             and st['ops'] == ops0 and st['views'] == ''):
